@@ -18,10 +18,13 @@ r = stage_glr.get(tier, 0)
 files = {"C01-D1": [], "C02-D1": [], "C03-D2": [], "C17-D1": [], "C17-D2": []}
 bad = []
 for c in r["cases"]:
-    if c["origin"] != "det" or c.get("variant") == "prefix-ld1":   # (prefix-ld1: finding D26 is matched by its configuration fact, C17-KF3)
+    if c["origin"] != "det":
         continue
+    ld1 = c.get("variant") == "prefix-ld1"   # losses under this configuration are finding D26, matched by its configuration fact (C17-KF3)
     diag = set(c["diag"])
     for cl in c["clauses"]:
+        if ld1 and (cl == "C01:rejects-sentence" or cl in D1):
+            continue
         if cl == "C01:rejects-sentence":
             # D1 at its worst: every derivation of the sentence needs a path that visits a GSS node twice
             ok = "loss:node-twice" in diag and "loss:other" not in diag
